@@ -151,8 +151,8 @@ PROPS["C13"] = dict(
 
 PROPS["C10"] = dict(
     level="proof",
-    verus=["c10_header", "c10_engine", "c04_partition"],
-    labels=["C10.", "C07.tags_with_set.tag_test"],
+    verus=["c10_header", "c10_engine", "c04_partition", "c18_gate", "c02_regex"],
+    labels=["C10.", "C07.tags_with_set.tag_test", "C02.regex.compile.safety", "C02.regex.make.safety", "C18.scriptlet.safety"],
     witness=["c10_flips.rs"],
     kani=[KaniSet("src/data_format/mod.rs", "c10_header.rs", [
         Harness("c10_header_twin", "C10.hdr.twin", "B", "twin of C10.hdr.*: every byte string of length <= 12 that does not reach the msgpack decoder (decoder stubbed; unwind 14, unwinding assertions on)"),
@@ -165,6 +165,7 @@ PROPS["C10"] = dict(
         ])],
     trusted=["rmp-serde msgpack decoding (v0::DeserializeFormat::deserialize body)",
              "witness C10.witness.single_byte_corruptions is a BOUNDED stand-in (concrete inputs, not a proof): all single-bit flips and nil replacements of one ~1 kB buffer holding every rule kind; load, queries, tag switches and re-serialization must not panic",
+             "decoded TEXTS reaching code that the parser normally guards: get_scriptlet_resource (unit c18_gate) and compile_regex / make_regexp (unit c02_regex) are now under contract WITHOUT a precondition on the text (C10.scriptlet.malformed_args_is_error, C02.regex.compile.safety, C18.scriptlet.safety) - both had carried a 'the parser establishes it' precondition that a load does not establish (fixes ed0ea80, e0b01ce); other functions that read decoded texts (CosmeticFilter fields, selectors, hostnames) are covered only by the bounded witness",
              "the tag test of Blocker::tags_with_set (run by every load) is under contract for rules decoded without a tag (R7 lift of the closure body, unit c04_partition)",
              "shape invariants of decoded rules beyond the ones listed: a hostname-anchored rule without hostname (Kani C harness), a procedural filter with any operator list incl. an empty one (Kani B harness, lists <= 2); fusion of decoded rules with empty any-of lists is covered by C05.fusion.safety (unit c05_optimizer, claimed under C05)"],
     assumptions=[],
